@@ -13,6 +13,7 @@ import os
 import random
 import subprocess
 import sys
+import threading
 import time
 import traceback
 from collections import Counter
@@ -181,7 +182,7 @@ def _run_task(args: Tuple[Callable, Any]) -> Collector:
     col = Collector()
     try:
         fn(task, col)
-    except Exception:  # harness failure: never a verdict
+    except (Exception, CallTimeout, StepLimit):  # harness failure: never a verdict
         col.fail_inconclusive("worker crashed: " + traceback.format_exc()[-1500:])
     return col
 
@@ -193,19 +194,113 @@ def pmap(fn: Callable[[Any, Collector], None], tasks: Sequence[Any], col: Collec
     tasks = list(tasks)
     if not tasks:
         return
-    if jobs <= 1 or len(tasks) == 1:
-        for t in tasks:
-            col.merge(_run_task((fn, t)))
-        return
+    if timeout is None:
+        # generous wall-clock watchdog; its firing is INCONCLUSIVE, never a verdict
+        timeout = float(os.environ.get("VERIF_WATCHDOG", "0") or 0) or \
+            (900.0 if os.environ.get("VERIF_TIER", "quick") == "quick" else 7200.0)
+    ex = ProcessPoolExecutor(max_workers=max(1, min(jobs, len(tasks))))
     try:
-        with ProcessPoolExecutor(max_workers=min(jobs, len(tasks))) as ex:
-            futs = [ex.submit(_run_task, (fn, t)) for t in tasks]
-            for f in as_completed(futs, timeout=timeout):
-                col.merge(f.result())
+        futs = [ex.submit(_run_task, (fn, t)) for t in tasks]
+        for f in as_completed(futs, timeout=timeout):
+            col.merge(f.result())
+        ex.shutdown(wait=True)
     except TimeoutError:
-        col.fail_inconclusive("watchdog: worker pool timed out")
+        col.fail_inconclusive(f"watchdog: worker pool did not finish within {timeout:.0f} s "
+                              "(a worker hangs or the machine is overloaded)")
+        _kill_pool(ex)
     except Exception as e:  # BrokenProcessPool etc.
         col.fail_inconclusive(f"worker pool failed: {type(e).__name__}: {e}")
+        _kill_pool(ex)
+
+
+def _kill_pool(ex: ProcessPoolExecutor) -> None:
+    procs = list(getattr(ex, "_processes", {}).values())
+    ex.shutdown(wait=False, cancel_futures=True)
+    for p in procs:
+        try:
+            p.kill()
+        except Exception:
+            pass
+
+
+class CallTimeout(BaseException):
+    """Raised inside the monitored call by the per-call deadline (SIGALRM)."""
+
+
+class deadline:
+    """Wall-clock deadline around ONE call of the code under test (POSIX, main thread of a
+    worker).  Its firing is only a trigger: the caller has to confirm non-termination by a
+    logical step budget before calling it a violation."""
+
+    def __init__(self, seconds: float):
+        self.seconds = seconds
+        self.fired = False
+
+    def __enter__(self) -> "deadline":
+        import signal
+
+        def handler(signum: int, frame: Any) -> None:
+            self.fired = True
+            raise CallTimeout()
+
+        self._armed = False
+        if threading.current_thread() is not threading.main_thread():
+            return self  # signals reach the main thread only: no trigger here
+        self._old = signal.signal(signal.SIGALRM, handler)
+        signal.setitimer(signal.ITIMER_REAL, self.seconds)
+        self._armed = True
+        return self
+
+    def __exit__(self, et: Any, ev: Any, tb: Any) -> bool:
+        import signal
+        if self._armed:
+            signal.setitimer(signal.ITIMER_REAL, 0)
+            signal.signal(signal.SIGALRM, self._old)
+        return et is CallTimeout
+
+
+class StepLimit(BaseException):
+    pass
+
+
+class Overloaded(Exception):
+    """The wall-clock trigger fired on a call that does terminate: inconclusive, never a verdict."""
+
+
+def runs_beyond(fn: Callable[[], Any], max_lines: int) -> bool:
+    """Execute fn() counting executed source lines (sys.monitoring LINE events); True if the
+    call was still running after max_lines lines (it is then aborted)."""
+    mon = sys.monitoring
+    tool = 2
+    try:
+        mon.use_tool_id(tool, "verif-steplimit")
+    except ValueError:
+        return False
+    n = [0]
+
+    tripped = [False]
+
+    def cb(code: Any, line: int) -> Any:
+        if code.co_filename.startswith(ROOT):
+            return mon.DISABLE  # the harness' own lines are not steps of the code under test
+        n[0] += 1
+        if n[0] > max_lines and not tripped[0]:
+            tripped[0] = True
+            raise StepLimit()
+
+    mon.register_callback(tool, mon.events.LINE, cb)
+    mon.set_events(tool, mon.events.LINE)
+    try:
+        fn()
+        return tripped[0]
+    except StepLimit:
+        return True
+    except BaseException:
+        return tripped[0]
+    finally:
+        mon.set_events(tool, 0)
+        mon.register_callback(tool, mon.events.LINE, None)
+        mon.free_tool_id(tool)
 
 
 # ---------------------------------------------------------------------------
